@@ -417,7 +417,12 @@ CARRIERS = ("OI", "OOI", "RI", "OP")
 def try_typed(chain):
     """can the chain be the branch of a try macro?  Its value at the end of every step must be an Option / Result"""
     st = site_types(chain)
-    return chain["ty"] in CARRIERS and all(st[i]["ty"] in CARRIERS for i, it in enumerate(chain["items"], 1) if it["deferred"])
+    if not (chain["ty"] in CARRIERS and all(st[i]["ty"] in CARRIERS for i, it in enumerate(chain["items"], 1) if it["deferred"])):
+        return False
+    # ... and the same kind of carrier at every step end: a step that ends with a Result cannot abort a macro whose value is an Option
+    kind = {"OI": "opt", "OOI": "opt", "OP": "opt", "RI": "res"}
+    ends = {kind[chain["ty"]]} | {kind[st[i]["ty"]] for i, it in enumerate(chain["items"], 1) if it["deferred"]}
+    return len(ends) == 1
 
 
 SPAWNING = ("join_spawn", "try_join_spawn", "spawn", "try_spawn")
